@@ -1,5 +1,6 @@
 import Poly.Proofs.MerkleVerify
 import Poly.Proofs.MerkleServe
+import Poly.Proofs.MerkleCons
 /-!
 # C07 — Merkle proof verifiers are sound
 
@@ -74,6 +75,33 @@ theorem inclusion_sound_data (hlen : HashLen H) (D : List (List UInt8)) (leaf : 
       · exact Or.inl rfl
       · exact Or.inr hc
   · exact Or.inr h
+
+/-- `VerifyConsistency` is sound: if it accepts `(old size, new size, old root, new root, proof)` where the
+roots are the RFC 6962 roots of two lists of leaf data `D₁`, `D₂` of those sizes, then `D₁` is a prefix of
+`D₂` — or a collision of `H` is exhibited. The early exits are covered: equal roots force equal lists (a
+collision otherwise, through the 0x00/0x01 domain separation when the sizes differ), old size 0 is the empty
+prefix. (Over raw leaf hashes the statement would be false: `mth [x] = x` can equal `mth [a, b]`.) -/
+theorem consistency_sound (hlen : HashLen H) (D₁ D₂ : List (List UInt8)) (proof : List Hash)
+    (hacc : verifyConsistency H D₁.length D₂.length (mth H (D₁.map (hashLeaf H))) (mth H (D₂.map (hashLeaf H))) proof = .ok ())
+    (hp32 : ∀ y ∈ proof, y.length = 32) : D₁ <+: D₂ ∨ Collision H := by
+  rcases Poly.Proofs.MerkleCons.verifyConsistency_sound H hlen D₁ D₂ proof hacc hp32 with h | h
+  · left; rw [h]; exact List.take_prefix _ _
+  · exact Or.inr h
+
+/-- Two committed lists with the same RFC 6962 root are the same list (any sizes), or a collision. -/
+theorem root_determines_list (hlen : HashLen H) (D₁ D₂ : List (List UInt8)) (h1 : D₁ ≠ []) (h2 : D₂ ≠ [])
+    (h : mth H (D₁.map (hashLeaf H)) = mth H (D₂.map (hashLeaf H))) : D₁ = D₂ ∨ Collision H :=
+  Poly.Proofs.MerkleCons.mth_data_inj H hlen D₁ D₂ h1 h2 h
+
+/-- For a fixed `(index, size, root)` at most one `(leaf hash, proof)` pair is accepted: any alteration of a
+proof hash or of the leaf of an accepted proof makes verification fail, unless a collision is exhibited.
+(No committed list is needed for this statement.) -/
+theorem inclusion_proof_unique (hlen : HashLen H) (lh lh' : Hash) (i n : Nat) (p p' : List Hash) (root : Hash)
+    (h1 : verifyLeafHashInclusion H lh i p root n = .ok ()) (h2 : verifyLeafHashInclusion H lh' i p' root n = .ok ())
+    (hl : lh.length = 32) (hl' : lh'.length = 32) (hp : ∀ y ∈ p, y.length = 32) (hp' : ∀ y ∈ p', y.length = 32) :
+    (lh = lh' ∧ p = p') ∨ Collision H := by
+  exact calcRoot_unique H hlen (n - 1) lh lh' i p p' root hl hl' hp hp'
+    (verifyInclusion_calcRoot H lh i n p root h1) (verifyInclusion_calcRoot H lh' i n p' root h2)
 
 /-- A proof of the wrong length for `(index, size)` is rejected outright: every accepted audit path has
 exactly `audit_path_length(index, size)` hashes. -/
